@@ -387,7 +387,7 @@ def outDigest : Except Err Files → Option (List (Option String))
 
 def wFiles : Files :=
   { input := [.cls "A" [] [] [.ann "x" "int" none] []],
-    output := [.strExpr "Usage:\n\n    code(block)\n", .fn false "f" { args := [⟨"a", none⟩, ⟨"b", none⟩] } [] [] none] }
+    output := [.strExpr "Usage:\n\n    code(block)\nend.", .fn false "f" { args := [⟨"a", none⟩, ⟨"b", none⟩] } [] [] none] }
 
 /-- **Negation (frame, module docstring):** every parse re-indents the module docstring and flattens the relative
     indentation inside it (`reindent` left-strips each line), so a run changes the docstring statement as well as the
@@ -395,7 +395,7 @@ def wFiles : Files :=
 theorem not_C13_frame_docstring : ¬ C13_files_frame_full := by
   intro h
   have hd : outDigest (syncProperties { inputParam := "A.x", outputParam := "f.b" } wFiles) =
-      some [some "\n    Usage:\n    \n    code(block)\n    ", some "a:,x:int"] := by decide
+      some [some "\n    Usage:\n    \n    code(block)\n    end.\n    ", some "a:,x:int"] := by decide
   cases hs : syncProperties { inputParam := "A.x", outputParam := "f.b" } wFiles with
   | error e => rw [hs] at hd; cases hd
   | ok fs' =>
